@@ -166,7 +166,7 @@ Proof.
   intros Hk HI Hpend.
   pose proof (read_chunk_spec true MultiFasta m k file st D Hk HI) as HG.
   destruct HI as [HI Hseek].
-  unfold read_chunk in *. unfold m_is_finished, m_reported, m_lines_after in *.
+  unfold read_chunk in *. unfold m_is_finished, m_reported, m_lines_after, m_incomplete_line, m_pending_incomplete_line in *.
   set (temp0 := match r_prepend st with [] => [] | p => [p] end) in *.
   assert (Ht0 : concat temp0 = r_prepend st ++ []).
   { unfold temp0. destruct (r_prepend st); [reflexivity|]. cbn [concat]. reflexivity. }
@@ -182,9 +182,10 @@ Proof.
     destruct (cut MultiFasta (concat temp)) as [size nl| | |l] eqn:Ecut; try exact I.
     destruct (cut_mf_ok (concat temp) size nl Ecut) as (H0 & Hs1 & Hs2 & Hb).
     set (chunk := concat temp) in *.
-    split; [split; [exact Hb|rewrite nthZ_firstn0 by exact Hs1; exact H0]|].
-    destruct fin.
-    + cbn [r_finished] in *. split; [discriminate|intros _].
+    destruct fin; cbn [andb] in HG |- *.
+    + revert HG. destruct (negb (leftover_ok MultiFasta (skipn size chunk))); [intros _; exact I|intros HG].
+      split; [split; [exact Hb|rewrite nthZ_firstn0 by exact Hs1; exact H0]|].
+      cbn [r_finished] in *. split; [discriminate|intros _].
       destruct HG as [_ HG]. specialize (HG eq_refl).
       destruct (HT eq_refl) as [HS Happ]. cbv zeta in HS, Happ.
       set (S := r_prepend st ++ firstn (pos' - r_pos st) (skipn (r_pos st) file)) in *.
@@ -202,7 +203,8 @@ Proof.
       assert (Hfile : file <> []) by (rewrite <- HG; destruct (concat D); [exact HS|discriminate]).
       rewrite (norm_text_nlopt file Hfile). rewrite <- HG at 2. rewrite (nlopt_last (concat D) S HS).
       rewrite <- HG, <- app_assoc. reflexivity.
-    + specialize (Hf1 eq_refl). subst app. rewrite app_nil_r in Hcc.
+    + split; [split; [exact Hb|rewrite nthZ_firstn0 by exact Hs1; exact H0]|].
+      specialize (Hf1 eq_refl). subst app. rewrite app_nil_r in Hcc.
       assert (Hlen : (length chunk <= length (r_prepend st) + length (skipn (r_pos st) file))%nat).
       { rewrite Hcc, app_length, firstn_length. lia. }
       destruct m; cbn [r_finished] in *; (split; [intros _|discriminate]);
@@ -210,7 +212,8 @@ Proof.
         rewrite Hnil in HI'; rewrite concat_snoc in HI';
         apply (f_equal (@length Z)) in HI'; apply (f_equal (@length Z)) in HI;
         rewrite !app_length in HI; rewrite !app_length, firstn_length in HI'; cbn [length] in HI'; lia.
-  - destruct HT as [Ht Hx]. apply Hpend. rewrite Hx, app_nil_r.
+  - cbn [andb]. destruct (negb (leftover_ok MultiFasta pending)); [exact I|].
+    destruct HT as [Ht Hx]. apply Hpend. rewrite Hx, app_nil_r.
     unfold temp0 in Ht. destruct (r_prepend st); [reflexivity|discriminate Ht].
 Qed.
 
